@@ -77,7 +77,11 @@ class RVData:
             idx = np.isfinite(self._t_bmjd) & np.isfinite(self.rv)
 
             if self._has_cov:
-                idx &= np.isfinite(self.rv_err).all(axis=0)
+                # drop observations with a non-finite variance, then any that
+                # still have a non-finite covariance with a retained one
+                finite_cov = np.isfinite(self.rv_err)
+                idx &= np.diag(finite_cov)
+                idx &= finite_cov[:, idx].all(axis=1)
             else:
                 idx &= np.isfinite(self.rv_err)
 
